@@ -34,15 +34,24 @@ class VBase:
     def __repr__(self):
         return 'VBase()'
 
+    def __hash__(self):
+        return 101   # deterministic: set order must not depend on id()
+
 
 class VDerived(VBase):
     def __repr__(self):
         return 'VDerived()'
 
+    def __hash__(self):
+        return 102
+
 
 class VOther:
     def __repr__(self):
         return 'VOther()'
+
+    def __hash__(self):
+        return 103   # deterministic: set order must not depend on id()
 
 
 class VAlien:
@@ -50,6 +59,9 @@ class VAlien:
 
     def __repr__(self):
         return 'VAlien()'
+
+    def __hash__(self):
+        return 107   # deterministic: set order must not depend on id()
 
 
 class VColor(enum.Enum):
@@ -76,6 +88,9 @@ class VFooImpl:
     def __repr__(self):
         return 'VFooImpl()'
 
+    def __hash__(self):
+        return 109   # deterministic: set order must not depend on id()
+
 
 class VMyList(list[VT]):
     pass
@@ -84,6 +99,9 @@ class VMyList(list[VT]):
 class VBox(Generic[VT]):
     def __repr__(self):
         return 'VBox()'
+
+    def __hash__(self):
+        return 113   # deterministic: set order must not depend on id()
 
 
 class VUserSeq(cabc.Sequence):
